@@ -1,6 +1,7 @@
 import Zc.Proofs.History
 import Zc.Proofs.Packetize
 import Zc.Proofs.Transmit
+import Zc.Proofs.RespScope
 /-! # C03 — the responder answers exactly what is registered, minus what the querier knows
 
 Model: `Zc.Registry` (`_services/registry.py`, with the D3 repair), `Zc.Svc` (the record builders and memo
@@ -99,7 +100,9 @@ include hi hm
 
 /-- Soundness: every record offered is — exactly, with the configured TTL, spelling and cache-flush bit — a
 record of a registered service that answers one of the questions, and (NSEC aside) the querier does not list
-it only with more than half of that TTL. -/
+it only with more than half of that TTL.  (For the type-enumeration pointer nothing is configured: its rdata is the
+lower-cased type and its TTL the responder's `ettl`.)  `knownOf msgs` is the list the suppression looks at; how it relates
+to the querier's list on the wire is the subject of the section on D25 below. -/
 theorem C03_answers_sound {d : DictRS} {reg' : Registry} (h : respond lower ettl reg msgs = .ok (some d, reg')) :
     ∀ a ∈ keysOf d, RespSpec.soundAnswer lower ettl reg.services (questionsOf msgs) (knownOf msgs) a = true := by
   rcases respond_ok lower ettl hi msgs with ⟨_, hr⟩ | ⟨_, hr⟩
@@ -113,7 +116,7 @@ theorem C03_answers_sound {d : DictRS} {reg' : Registry} (h : respond lower ettl
     unfold RespSpec.soundAnswer
     rw [Bool.and_eq_true, List.any_eq_true]
     refine ⟨⟨q, hq, ?_⟩, ?_⟩
-    · rw [List.any_eq_true]; exact ⟨s, hs, List.contains_iff_mem.mpr hc⟩
+    · rw [List.any_eq_true]; exact ⟨s, hs, List.contains_iff_mem.mpr (mem_candidatesS_of_mem lower ettl hc)⟩
     · rcases hk with hk | hk
       · simp [hk]
       · cases hn : RespSpec.isNsec a
@@ -348,6 +351,133 @@ example : dirty id [.register exX, .query qSrvX, .mutate "x._a._tcp.local." (.po
 example : (match respond id 4500 (Registry.run id 4500 [.register exX, .query qSrvX, .unregister ["x._a._tcp.local."]]) qSrvX with
            | .ok (none, _) => true
            | _ => false) = true := by decide
+
+/-! ## "minus records the querier lists": the list on the wire versus the list the suppression sees (defect D25)
+
+The theorems above speak about `knownOf msgs`, the records `_answer_question` is given.  A query received on an IPv6 socket is
+parsed with the socket's scope id on every AAAA record (`Model/RespScope.lean`); the scope id is not on the wire, the
+responder's own records never carry one, and identity compares it.  `respondQ unscopes` is `async_response` on packets as the
+listener delivers them; `unscopes = id` is the code with the D25 repair (own records are compared with the known answers
+without scope ids), `unscopes = fun _ => false` the code as shipped, `treeUnscopes` (translated leaves) the tree at hand. -/
+
+/-- **full strength**: soundness and completeness with respect to the querier's list *as it is on the wire* -/
+def C03_known_on_wire (unscopes : Bool → Bool) : Prop :=
+  ∀ reg : Registry, IndexInv lower reg → AllFresh lower reg → ∀ ps : List QPkt, WellStamped ps →
+    ∀ o reg', respondQ unscopes lower ettl reg ps = .ok (o, reg') →
+      (∀ a ∈ (o.getD []).map (·.1),
+          RespSpec.soundAnswer lower ettl reg.services (questionsOf (ps.map (·.msg))) (wireKnown ps) a = true)
+      ∧ RespSpec.completePerService lower ettl reg.services (questionsOf (ps.map (·.msg))) (wireKnown ps) ((o.getD []).map (·.1)) = true
+
+/-- the repaired code meets it -/
+theorem C03_known_on_wire_repaired : C03_known_on_wire lower ettl id := by
+  intro reg hi hm ps hw o reg' h
+  unfold respondQ at h
+  have hk := knownOf_ownView_repaired hw
+  have hq := questionsOf_ownView id ps
+  constructor
+  · intro a ha
+    cases o with
+    | none => simp at ha
+    | some d =>
+      have := C03_answers_sound lower ettl hi hm (ownView id ps) h a (by simpa [keysOf] using ha)
+      rw [hk, hq] at this
+      exact this
+  · have := C03_answers_complete_per_service lower ettl hi hm (ownView id ps) h
+    rw [hk, hq] at this
+    exact this
+
+/-- … and so does any tree **for queries outside D25's input class** (`NoScopedKnownOfOwn`: no known answer that carries a scope
+id is, without it, a record of a registered service) — in particular every query received on an IPv4 socket.  `_partial`:
+missing for full strength on the code as shipped is exactly that class (`C03_known_on_wire_shipped_refuted`). -/
+theorem C03_known_on_wire_partial (unscopes : Bool → Bool) {reg : Registry} (hi : IndexInv lower reg) (hm : AllFresh lower reg)
+    (ps : List QPkt) (hn : NoScopedKnownOfOwn lower ettl reg.services ps)
+    {o : Option DictRS} {reg' : Registry} (h : respondQ unscopes lower ettl reg ps = .ok (o, reg')) :
+    (∀ a ∈ (o.getD []).map (·.1),
+        RespSpec.soundAnswer lower ettl reg.services (questionsOf (ps.map (·.msg))) (wireKnown ps) a = true)
+    ∧ RespSpec.completePerService lower ettl reg.services (questionsOf (ps.map (·.msg))) (wireKnown ps) ((o.getD []).map (·.1)) = true := by
+  unfold respondQ at h
+  have hq := questionsOf_ownView unscopes ps
+  have hk := knownOf_ownView unscopes ps
+  have hs : ∀ a ∈ (o.getD []).map (·.1),
+      RespSpec.soundAnswer lower ettl reg.services (questionsOf (ps.map (·.msg))) (knownOf (ownView unscopes ps)) a = true := by
+    intro a ha
+    cases o with
+    | none => simp at ha
+    | some d =>
+      have := C03_answers_sound lower ettl hi hm (ownView unscopes ps) h a (by simpa [keysOf] using ha)
+      rw [hq] at this
+      exact this
+  have hc := C03_answers_complete_per_service lower ettl hi hm (ownView unscopes ps) h
+  rw [hq] at hc
+  cases hu : unscopes (lastScoped ps)
+  · rw [hu] at hk
+    simp only [Bool.false_eq_true, if_false] at hk
+    rw [hk] at hs hc
+    exact ⟨fun a ha => soundAnswer_congr lower ettl (fun s hsm r hr => ((sup_wire_eq lower ettl hn hsm hr).2).symm) (hs a ha),
+           completePerService_congr lower ettl (fun s hsm r hr => ((sup_wire_eq lower ettl hn hsm hr).1).symm) hc⟩
+  · rw [hu] at hk
+    simp only [if_true] at hk
+    rw [hk] at hs hc
+    exact ⟨hs, hc⟩
+
+/-- the working tree is one of the two (whichever: the statement builds on both) -/
+theorem C03_tree_unscopes : (∀ b, treeUnscopes b = b) ∨ (∀ b, treeUnscopes b = false) := by
+  first
+    | (left; intro b; cases b <;> rfl)
+    | (right; intro b; cases b <;> rfl)
+
+/-- D25's witness: `y._b._tcp` on `h1.local.` with the address fe80::2; `AAAA h1.local.?` listing exactly that record with its full
+TTL, received on an IPv6 socket (scope id 3) -/
+def d25Query : List QPkt :=
+  [{ msg := { isProbe := false, questions := [⟨"h1.local.", 28, 1, false⟩],
+              answers := [⟨"h1.local.", 28, 1, true, 120, 0, .addr [0xfe, 0x80, 0, 0, 0, 0, 0, 0, 0, 0, 0, 0, 0, 0, 0, 2] (some 3)⟩] },
+     hasScope := true }]
+
+/-- the responder's own record for that address -/
+def d25Aaaa : Rec := ⟨"h1.local.", 28, 1, true, 120, 0, .addr [0xfe, 0x80, 0, 0, 0, 0, 0, 0, 0, 0, 0, 0, 0, 0, 0, 2] none⟩
+
+theorem d25Query_wellStamped : WellStamped d25Query := by
+  constructor
+  · intro p hp; simp [d25Query] at hp; subst hp; rfl
+  · intro p hp hf; simp [d25Query] at hp; subst hp; simp at hf
+
+/-- the code as shipped offers the AAAA record although the querier lists it with its full TTL -/
+theorem C03_known_on_wire_shipped_refuted : ¬ C03_known_on_wire id 4500 (fun _ => false) := by
+  intro h
+  have hr := h (Registry.run id 4500 [.register exY]) (C03_registry_refines id 4500 _).1
+    (fun s hs => C03_memo_fresh id 4500 _ s hs (by
+      have : dirty id [RegOp.register exY] = [] := by decide
+      rw [this]; simp))
+    d25Query d25Query_wellStamped
+  have h2 : (match respondQ (fun _ => false) id 4500 (Registry.run id 4500 [.register exY]) d25Query with
+             | .ok (some d, _) => d.map (·.1)
+             | _ => []) = [d25Aaaa] := by decide
+  have hf : RespSpec.soundAnswer id 4500 (Registry.run id 4500 [.register exY]).services
+      (questionsOf (d25Query.map (·.msg))) (wireKnown d25Query) d25Aaaa = false := by decide
+  cases hres : respondQ (fun _ => false) id 4500 (Registry.run id 4500 [.register exY]) d25Query with
+  | error e => rw [hres] at h2; simp at h2
+  | ok p =>
+    obtain ⟨o, reg'⟩ := p
+    cases o with
+    | none => rw [hres] at h2; simp at h2
+    | some d =>
+      rw [hres] at h2
+      simp only at h2
+      have hs := (hr (some d) reg' hres).1 d25Aaaa (by simp [h2])
+      rw [hf] at hs
+      exact Bool.false_ne_true hs
+
+/-- non-vacuity of `NoScopedKnownOfOwn`: the same question listing the record *without* a scope id (an IPv4 socket), and a
+scoped known answer for an address nobody registered, are inside the hypothesis; the witness is exactly what it excludes -/
+example :
+    NoScopedKnownOfOwn id 4500 (Registry.run id 4500 [.register exY]).services
+      [{ msg := { isProbe := false, questions := [⟨"h1.local.", 28, 1, false⟩],
+                  answers := [⟨"h1.local.", 28, 1, true, 120, 0, .addr [0xfe, 0x80, 0, 0, 0, 0, 0, 0, 0, 0, 0, 0, 0, 0, 0, 2] none⟩,
+                              ⟨"h1.local.", 28, 1, true, 120, 0, .addr [0xfe, 0x80, 0, 0, 0, 0, 0, 0, 0, 0, 0, 0, 0, 0, 0, 9] (some 3)⟩] },
+         hasScope := true }]
+    ∧ ¬ NoScopedKnownOfOwn id 4500 (Registry.run id 4500 [.register exY]).services d25Query := by
+  unfold NoScopedKnownOfOwn
+  constructor <;> decide
 
 /-! ## the last clause at the wire: replies transmitted after an update (finding D20)
 
